@@ -81,17 +81,44 @@ def structures(mods):
 
 
 def mode_discover():
-    rec = Recorder()
-    mods = inject(lambda: rec)
+    """every call of the loader returns a NEW recording handle, as the real loader returns a new ctypes.CDLL: argtypes/restype
+    declarations live on the handle they were made on, so what one module declares does not hold for a call made through the
+    handle of another module.  Per module: the functions declared on its handle(s) (observed at import) and the functions
+    referenced through them anywhere in the module (attribute references on the handle names in the module's syntax tree)."""
+    import ast
+    recs = []
+
+    def loader():
+        r = Recorder()
+        recs.append(r)
+        return r
+    mods = inject(loader)
     funcs = {}
-    for name, fr in rec.funcs.items():
-        e = {'declared': sorted(fr.d.keys())}
-        if 'argtypes' in fr.d:
-            e['argtypes'] = [describe(t) for t in (fr.d['argtypes'] or [])]
-        if 'restype' in fr.d:
-            e['restype'] = describe(fr.d['restype'])
-        funcs[name] = e
-    json.dump({'structures': structures(mods), 'functions': funcs}, sys.stdout)
+    per_module = {}
+    for mn, m in mods.items():
+        handles = [k for k, v in vars(m).items() if isinstance(v, Recorder)]
+        declared = {}
+        for h in handles:
+            for name, fr in vars(m)[h].funcs.items():
+                declared.setdefault(name, set()).update(fr.d.keys())
+        used = set()
+        try:
+            tree = ast.parse(open(m.__file__).read())
+            for node in ast.walk(tree):
+                if isinstance(node, ast.Attribute) and isinstance(node.value, ast.Name) and node.value.id in handles:
+                    used.add(node.attr)
+        except Exception as e:               # a module the parser cannot read: reported, not judged
+            used = None
+        per_module[mn] = {'handles': handles, 'declared': {k: sorted(v) for k, v in declared.items()}, 'used': sorted(used) if used is not None else None}
+    for rec in recs:
+        for name, fr in rec.funcs.items():
+            e = funcs.setdefault(name, {'declared': []})
+            e['declared'] = sorted(set(e['declared']) | set(fr.d.keys()))
+            if 'argtypes' in fr.d and 'argtypes' not in e:
+                e['argtypes'] = [describe(t) for t in (fr.d['argtypes'] or [])]
+            if 'restype' in fr.d and 'restype' not in e:
+                e['restype'] = describe(fr.d['restype'])
+    json.dump({'structures': structures(mods), 'functions': funcs, 'per_module': per_module}, sys.stdout)
 
 
 # ----------------------------------------------------------------------------- struct monitor
